@@ -85,6 +85,9 @@ func (*ScanProvB) Naming() string { return "provB" }
 type ScanIface interface{ Ping() }
 type ScanNoImpl interface{ Nope() }
 
+// implemented by the self-candidate holder types (ScanHub… / ScanSolo…) only: the holder is the ONLY candidate
+type ScanSolo interface{ Solo() }
+
 // a ConfigurationProperties marker (bound without a tag)
 type ScanMark struct{ V string }
 
@@ -117,6 +120,10 @@ var scanLeafTypes = map[string]reflect.Type{
 	"pb": reflect.TypeOf((*ScanProvB)(nil)),
 	"if": reflect.TypeOf((*ScanIface)(nil)).Elem(),
 	"in": reflect.TypeOf((*ScanNoImpl)(nil)).Elem(),
+	// static types only (self-candidates, see ScanHub…): slices of an interface, an interface only the holder implements
+	"is": reflect.TypeOf([]ScanIface(nil)),
+	"so": reflect.TypeOf((*ScanSolo)(nil)).Elem(),
+	"ss": reflect.TypeOf([]ScanSolo(nil)),
 }
 var (
 	scanGrpT  = reflect.TypeOf(ScanGrp{})
@@ -449,12 +456,15 @@ func scanFill(v reflect.Value, n *scanNode) {
 }
 
 type scanProviders struct {
-	a *ScanProvA
-	b *ScanProvB
+	a    *ScanProvA
+	b    *ScanProvB
+	self uintptr // the component under test itself (a holder may be a candidate for its own fields)
 }
 
 func (p *scanProviders) who(ptr uintptr) string {
 	switch ptr {
+	case p.self:
+		return "SELF"
 	case uintptr(unsafe.Pointer(p.a)):
 		return "A"
 	case uintptr(unsafe.Pointer(p.b)):
@@ -503,6 +513,25 @@ func scanRender(v reflect.Value, n *scanNode, pv *scanProviders) string {
 			return pv.who(e.Pointer())
 		}
 		return "?"
+	case reflect.Slice:
+		// a wire slice: WHICH components it holds (their order is the registry's enumeration order, a Go map order)
+		if v.IsNil() {
+			return "nil"
+		}
+		var parts []string
+		for i := 0; i < v.Len(); i++ {
+			e := v.Index(i)
+			for e.Kind() == reflect.Interface && !e.IsNil() {
+				e = e.Elem()
+			}
+			if e.Kind() == reflect.Ptr && !e.IsNil() {
+				parts = append(parts, pv.who(e.Pointer()))
+			} else {
+				parts = append(parts, "?")
+			}
+		}
+		sort.Strings(parts)
+		return "[" + strings.Join(parts, ",") + "]"
 	}
 	return fmt.Sprintf("%v", v.Interface())
 }
@@ -652,6 +681,7 @@ var scanPlain = map[string]string{
 	"b|value|false": "b:false", "b|value|${b.k}": "b:false", "b|prop|b.k": "b:false", "b|prefix|b.k": "b:false",
 	"lg|logger|": "set", "lg|logger|nm": "set", "lg|logger|,embed": "set",
 	"pa|wire|": "A", "pa|func|Ping": "A", "pa|wire|main/ScanProvA": "A", "pb|wire|": "B", "pb|wire|provB": "B", "if|wire|": "A", "if|func|Ping": "A",
+	"is|wire|": "[A]", "is|func|Ping": "[A]",
 }
 
 func (u scanUnit) builtinCount() int {
@@ -754,7 +784,7 @@ func scanRunX(kids []*scanNode, static any, extra string) *scanResult {
 		scanFill(root.Elem().Field(i), k)
 	}
 	scanUnits(kids, "", nil, &res.units)
-	pv := &scanProviders{a: &ScanProvA{N: "a"}, b: &ScanProvB{N: "b"}}
+	pv := &scanProviders{a: &ScanProvA{N: "a"}, b: &ScanProvB{N: "b"}, self: root.Pointer()}
 	at := func(ix []int) reflect.Value {
 		v := root.Elem()
 		for _, i := range ix {
@@ -1353,9 +1383,183 @@ type ScanStatic5Flat struct {
 	V3  bool          `value:"false"`
 }
 
-var scanStaticFlat = map[int]any{0: ScanStatic0Flat{}, 4: ScanStatic4Flat{}, 5: ScanStatic5Flat{}}
+// SELF-CANDIDATES: a component that is itself a candidate for its own `wire` fields (it implements the interface the
+// field asks for).  StructOf types have no methods, so these are static.  The same five points —
+//
+//	Peers []ScanIface `wire:""`                 candidates: provider A and the holder      -> [A]
+//	Next  ScanIface   `wire:""`                 candidates: provider A and the holder      -> A
+//	Opt   ScanSolo    `wire:",required=false"`  the holder is the ONLY candidate           -> stays nil
+//	OptS  []ScanSolo  `wire:",required=false"`  the holder is the ONLY candidate           -> stays nil
+//	Fns   []ScanIface `func:"Ping"`             candidates: provider A and the holder      -> [A]
+//
+// — are declared directly on the component (the flat twins) and inside embedded structs in every position: first member
+// (offset 0), after a plain member, after another embedded struct, two and three levels deep, first member of an
+// embedded struct that is itself not first.  Every arrangement must end with what its flat twin ends with (oracle (i)).
+type ScanSelfLinks struct {
+	Peers []ScanIface `wire:""`
+	Next  ScanIface   `wire:""`
+	Opt   ScanSolo    `wire:",required=false"`
+	OptS  []ScanSolo  `wire:",required=false"`
+	Fns   []ScanIface `func:"Ping"`
+}
+type ScanSelfInfo struct {
+	Label string
+	Count int
+}
 
-var scanStatics = []any{ScanStatic0{}, ScanStatic1{}, ScanStatic2{}, ScanStatic3{}, ScanStatic4{}, ScanStatic5{}}
+// (the component has a method Ping and a method Solo in every arrangement)
+// flat twin 1: Label Count <links>
+type ScanHubFlat1 struct {
+	Label string
+	Count int
+	Peers []ScanIface `wire:""`
+	Next  ScanIface   `wire:""`
+	Opt   ScanSolo    `wire:",required=false"`
+	OptS  []ScanSolo  `wire:",required=false"`
+	Fns   []ScanIface `func:"Ping"`
+}
+
+// flat twin 2: <links> Label Count
+type ScanHubFlat2 struct {
+	Peers []ScanIface `wire:""`
+	Next  ScanIface   `wire:""`
+	Opt   ScanSolo    `wire:",required=false"`
+	OptS  []ScanSolo  `wire:",required=false"`
+	Fns   []ScanIface `func:"Ping"`
+	Label string
+	Count int
+}
+
+// flat twin 3: Label <links> Count
+type ScanHubFlat3 struct {
+	Label string
+	Peers []ScanIface `wire:""`
+	Next  ScanIface   `wire:""`
+	Opt   ScanSolo    `wire:",required=false"`
+	OptS  []ScanSolo  `wire:",required=false"`
+	Fns   []ScanIface `func:"Ping"`
+	Count int
+}
+
+// the embedded struct is the first member (offset 0)
+type ScanHubFirst struct {
+	ScanSelfLinks
+	Label string
+	Count int
+}
+
+// … declared after plain members (non-zero offset)
+type ScanHubSecond struct {
+	Label string
+	Count int
+	ScanSelfLinks
+}
+
+// … declared after another embedded struct
+type ScanHubAfterEmbed struct {
+	ScanSelfInfo
+	ScanSelfLinks
+}
+
+// … two levels deep, behind another embedded struct
+type ScanSelfInner struct {
+	ScanSelfInfo
+	ScanSelfLinks
+}
+type ScanHubDeep struct{ ScanSelfInner }
+
+// … three levels deep
+type ScanSelfWrap3 struct{ ScanSelfLinks }
+type ScanSelfWrap2 struct {
+	ScanSelfInfo
+	ScanSelfWrap3
+}
+type ScanSelfWrap1 struct{ ScanSelfWrap2 }
+type ScanHubDeep3 struct{ ScanSelfWrap1 }
+
+// … first member at both levels (offset 0 all the way down)
+type ScanSelfOuter0 struct {
+	ScanSelfLinks
+	Label string
+}
+type ScanHubFirstDeep struct {
+	ScanSelfOuter0
+	Count int
+}
+
+// … first member of an embedded struct that is itself declared after a plain member
+type ScanSelfOuterN struct {
+	ScanSelfLinks
+	Count int
+}
+type ScanHubMid struct {
+	Label string
+	ScanSelfOuterN
+}
+
+func (*ScanHubFlat1) Ping()      {}
+func (*ScanHubFlat1) Solo()      {}
+func (*ScanHubFlat2) Ping()      {}
+func (*ScanHubFlat2) Solo()      {}
+func (*ScanHubFlat3) Ping()      {}
+func (*ScanHubFlat3) Solo()      {}
+func (*ScanHubFirst) Ping()      {}
+func (*ScanHubFirst) Solo()      {}
+func (*ScanHubSecond) Ping()     {}
+func (*ScanHubSecond) Solo()     {}
+func (*ScanHubAfterEmbed) Ping() {}
+func (*ScanHubAfterEmbed) Solo() {}
+func (*ScanHubDeep) Ping()       {}
+func (*ScanHubDeep) Solo()       {}
+func (*ScanHubDeep3) Ping()      {}
+func (*ScanHubDeep3) Solo()      {}
+func (*ScanHubFirstDeep) Ping()  {}
+func (*ScanHubFirstDeep) Solo()  {}
+func (*ScanHubMid) Ping()        {}
+func (*ScanHubMid) Solo()        {}
+
+// a REQUIRED point whose only candidate is the holder itself: the start is refused, wherever the point is declared
+type ScanSoloLinks struct {
+	Only ScanSolo `wire:""`
+}
+type ScanSoloFlat1 struct {
+	Label string
+	Only  ScanSolo `wire:""`
+}
+type ScanSoloFlat2 struct {
+	Only  ScanSolo `wire:""`
+	Label string
+}
+type ScanSoloFirst struct {
+	ScanSoloLinks
+	Label string
+}
+type ScanSoloSecond struct {
+	Label string
+	ScanSoloLinks
+}
+type ScanSoloInfo struct{ Label string }
+type ScanSoloInner struct {
+	ScanSoloInfo
+	ScanSoloLinks
+}
+type ScanSoloDeep struct{ ScanSoloInner }
+
+func (*ScanSoloFlat1) Solo()  {}
+func (*ScanSoloFlat2) Solo()  {}
+func (*ScanSoloFirst) Solo()  {}
+func (*ScanSoloSecond) Solo() {}
+func (*ScanSoloDeep) Solo()   {}
+
+var scanStaticFlat = map[int]any{0: ScanStatic0Flat{}, 4: ScanStatic4Flat{}, 5: ScanStatic5Flat{},
+	9: ScanHubFlat2{}, 10: ScanHubFlat1{}, 11: ScanHubFlat1{}, 12: ScanHubFlat1{}, 13: ScanHubFlat1{}, 14: ScanHubFlat2{}, 15: ScanHubFlat3{},
+	18: ScanSoloFlat2{}, 19: ScanSoloFlat1{}, 20: ScanSoloFlat1{}}
+
+var scanStatics = []any{ScanStatic0{}, ScanStatic1{}, ScanStatic2{}, ScanStatic3{}, ScanStatic4{}, ScanStatic5{},
+	/* 6 */ ScanHubFlat1{}, ScanHubFlat2{}, ScanHubFlat3{},
+	/* 9 */ ScanHubFirst{}, ScanHubSecond{}, ScanHubAfterEmbed{}, ScanHubDeep{}, ScanHubDeep3{}, ScanHubFirstDeep{}, ScanHubMid{},
+	/* 16 */ ScanSoloFlat1{}, ScanSoloFlat2{},
+	/* 18 */ ScanSoloFirst{}, ScanSoloSecond{}, ScanSoloDeep{}}
 
 func scanParseTag(tag string) []scanKV {
 	// the conventional format only (static types are hand-written); mirrors reflect.StructTag.Lookup's scanner
